@@ -37,7 +37,9 @@ class C04(ParamsProp):
     def corpus(self):
         return [dict(c) for c in CLAUSES] + super().corpus()
 
-    def cases(self, tier, seed):
+    families = {"deep_ref_layers": 150, "repeated_layers": 60, "both_flags": 40}
+
+    def base_cases(self, tier, seed):
         N = 1200 if tier == "quick" else 30000
         for i in range(N):
             r = Rng(seed, "C04", i)
